@@ -175,9 +175,9 @@ Proof.
   intros Cv Cw P. unfold version_match_prim. now rewrite cmp_strict_key_order by auto.
 Qed.
 
-Lemma conv_operand_ok a v : alt_conv v a -> operand_ok a /\ name_ok a.
+Lemma conv_operand_ok a : conv (snd a) = true -> operand_ok a /\ name_ok a.
 Proof.
-  intros [C _]. destruct (conv_wf_name _ C) as [W N]. destruct (conv_not_keyword _ C) as [A O].
+  intros C. destruct (conv_wf_name _ C) as [W N]. destruct (conv_not_keyword _ C) as [A O].
   unfold wf_name in W. split; [split; [|assumption]|split; [|split; assumption]].
   - eapply forallb_impl; [apply wf_char_plain|exact W].
   - unfold is_vername. apply nonempty_true_iff in N. rewrite N. cbn [andb].
@@ -190,13 +190,25 @@ Lemma match_expr v a l :
 Proof.
   intros Cv H. unfold version_match. rewrite print_expr_cons.
   assert (Hok : Forall (fun a => operand_ok a /\ name_ok a) (a :: l)).
-  { eapply Forall_impl; [|exact H]. intros x. apply conv_operand_ok. }
+  { eapply Forall_impl; [|exact H]. intros x [Cx _]. now apply conv_operand_ok. }
   inversion Hok as [|? ? [Oa Na] Hl]; subst.
   rewrite tokenize_alt_tail; [|assumption|eapply Forall_impl; [|exact Hl]; now intros x [? _]].
   rewrite items_alt by assumption.
   rewrite items_tail by (eapply Forall_impl; [|exact Hl]; now intros x [_ ?]).
   apply run_expr. eapply Forall_impl; [|exact H]. intros x [Cx Px].
   unfold alt_holds, alt_op. now apply prim_key.
+Qed.
+
+(* an operand with another letter prefix cannot be sorted against the version: no match *)
+Lemma match_unsortable v a :
+  conv v = true -> conv (snd a) = true -> prefix_of (snd a) <> prefix_of v ->
+  version_match v (print_expr [a]) = Ok false.
+Proof.
+  intros Cv Ca P. unfold version_match. rewrite print_expr_cons.
+  destruct (conv_operand_ok a Ca) as [Oa Na].
+  rewrite tokenize_alt_tail by (auto; constructor). rewrite items_alt by assumption.
+  cbn [tail_toks flat_map items run_items]. unfold version_match_prim.
+  rewrite cmp_strict_unsortable by auto. reflexivity.
 Qed.
 
 (* ---------------------------------------------------------------- latest *)
